@@ -542,7 +542,7 @@ impl<'a> Gen<'a> {
             return op;
         }
         match op {
-            Op::IterMut { n, writes, touch, via_ref, .. } => Op::IterMut { n, writes, touch, leak: false, via_ref },
+            Op::IterMut { n, writes, touch, via_ref, back, .. } => Op::IterMut { n, writes, touch, leak: false, via_ref, back },
             Op::Drain { front, back, .. } => Op::Drain { front, back, leak: false },
             o => o,
         }
@@ -669,7 +669,8 @@ impl<'a> Gen<'a> {
                         }
                     })
                     .collect();
-                Op::IterMut { n, writes, touch: self.rng.chance(1, 4), leak: self.rng.chance(1, 10), via_ref: self.rng.chance(1, 3) }
+                let back = if self.rng.chance(1, 2) { 0 } else { self.rng.below(len + 2) };
+                Op::IterMut { n, writes, touch: self.rng.chance(1, 4), leak: self.rng.chance(1, 10), via_ref: self.rng.chance(1, 3), back }
             }
             Retain => Op::Retain { pred: self.pred(m) },
             RetainMut => {
